@@ -402,3 +402,172 @@ func (p *Program) lookupFunc(pkg, name string) *ssa.Function {
 	}
 	return nil
 }
+
+// ---- backward data derivation -------------------------------------------------
+
+type deriveOpts struct {
+	throughCalls func(c *ssa.Call) bool // follow a call's arguments
+	throughBinOp bool
+	maxDepth     int
+}
+
+// derives reports whether v is computed (by loads, field/index selection,
+// extraction, conversion, phi, and stores into local allocations) from a value
+// satisfying pred.
+func derives(v ssa.Value, pred func(ssa.Value) bool, o *deriveOpts) bool {
+	seen := map[ssa.Value]bool{}
+	if o == nil {
+		o = &deriveOpts{}
+	}
+	var rec func(v ssa.Value, d int) bool
+	storesInto := func(a ssa.Value, d int) bool {
+		// values stored to a or to sub-addresses of a
+		if a.Referrers() == nil {
+			return false
+		}
+		for _, r := range *a.Referrers() {
+			switch x := r.(type) {
+			case *ssa.Store:
+				if x.Addr == a && rec(x.Val, d+1) {
+					return true
+				}
+			case *ssa.FieldAddr:
+				if x.X == a {
+					for _, r2 := range *x.Referrers() {
+						if s, ok := r2.(*ssa.Store); ok && s.Addr == x && rec(s.Val, d+1) {
+							return true
+						}
+					}
+				}
+			case *ssa.IndexAddr:
+				if x.X == a {
+					for _, r2 := range *x.Referrers() {
+						if s, ok := r2.(*ssa.Store); ok && s.Addr == x && rec(s.Val, d+1) {
+							return true
+						}
+					}
+				}
+			}
+		}
+		return false
+	}
+	rec = func(v ssa.Value, d int) bool {
+		if v == nil || seen[v] {
+			return false
+		}
+		if o.maxDepth > 0 && d > o.maxDepth {
+			return false
+		}
+		seen[v] = true
+		if pred(v) {
+			return true
+		}
+		switch x := v.(type) {
+		case *ssa.Phi:
+			for _, e := range x.Edges {
+				if rec(e, d+1) {
+					return true
+				}
+			}
+		case *ssa.Extract:
+			return rec(x.Tuple, d+1)
+		case *ssa.UnOp:
+			if x.Op == token.MUL {
+				return rec(x.X, d+1)
+			}
+			return rec(x.X, d+1)
+		case *ssa.Alloc:
+			return storesInto(x, d)
+		case *ssa.FieldAddr:
+			if a, ok := x.X.(*ssa.Alloc); ok {
+				// same-field stores on the same allocation
+				for _, r := range *a.Referrers() {
+					if fa, ok := r.(*ssa.FieldAddr); ok && fa.Field == x.Field {
+						for _, r2 := range *fa.Referrers() {
+							if s, ok := r2.(*ssa.Store); ok && s.Addr == fa && rec(s.Val, d+1) {
+								return true
+							}
+						}
+					}
+					if s, ok := r.(*ssa.Store); ok && s.Addr == a && rec(s.Val, d+1) {
+						return true
+					}
+				}
+				return false
+			}
+			return rec(x.X, d+1)
+		case *ssa.IndexAddr:
+			if a, ok := x.X.(*ssa.Alloc); ok {
+				return storesInto(a, d)
+			}
+			return rec(x.X, d+1)
+		case *ssa.Field:
+			return rec(x.X, d+1)
+		case *ssa.Index:
+			return rec(x.X, d+1)
+		case *ssa.Slice:
+			return rec(x.X, d+1)
+		case *ssa.Convert:
+			return rec(x.X, d+1)
+		case *ssa.ChangeType:
+			return rec(x.X, d+1)
+		case *ssa.MakeInterface:
+			return rec(x.X, d+1)
+		case *ssa.ChangeInterface:
+			return rec(x.X, d+1)
+		case *ssa.TypeAssert:
+			return rec(x.X, d+1)
+		case *ssa.Lookup:
+			return rec(x.X, d+1)
+		case *ssa.Next:
+			return rec(x.Iter, d+1)
+		case *ssa.Range:
+			return rec(x.X, d+1)
+		case *ssa.BinOp:
+			if o.throughBinOp {
+				return rec(x.X, d+1) || rec(x.Y, d+1)
+			}
+		case *ssa.Call:
+			if o.throughCalls != nil && o.throughCalls(x) {
+				for _, a := range x.Call.Args {
+					if rec(a, d+1) {
+						return true
+					}
+				}
+				if x.Call.IsInvoke() && rec(x.Call.Value, d+1) {
+					return true
+				}
+			}
+		}
+		return false
+	}
+	return rec(v, 0)
+}
+
+// unspill looks through a load from a local cell that is stored exactly once
+// (go/ssa spills captured parameters and variables to heap cells).
+func unspill(v ssa.Value) ssa.Value {
+	for i := 0; i < 4; i++ {
+		u, ok := v.(*ssa.UnOp)
+		if !ok || u.Op != token.MUL {
+			return v
+		}
+		al, ok := u.X.(*ssa.Alloc)
+		if !ok {
+			return v
+		}
+		var st *ssa.Store
+		n := 0
+		for _, r := range *al.Referrers() {
+			if s, ok := r.(*ssa.Store); ok && s.Addr == al {
+				st = s
+				n++
+			}
+		}
+		if n != 1 {
+			return v
+		}
+		v = st.Val
+	}
+	return v
+}
